@@ -1,17 +1,110 @@
 import PnVerif.Props.C04
-import PnVerif.Model.Layout
+import PnVerif.Lemmas.LayoutLemmas
 /-
   C03 — files written conform to the classic CDF-1/2/5 format specification.
-  Models: Model/Layout.lean (NC_begins), Model/Header.lean (writer); independent decoder Spec/SpecDecode.lean.
+  Models: Model/Layout.lean (NC_begins, alignment precedence), Model/Header.lean (writer, header
+  length); independent decoder: Spec/SpecDecode.lean.
 -/
 namespace PnVerif.Props.C03
 open PnVerif.Spec PnVerif.Header PnVerif.Layout
 
-/-- reported header size = bytes written (see Props/C04) -/
+/-- The header size the library reports and uses for every offset is the number of bytes the writer
+    produces (all three formats, every header). -/
 theorem header_size_is_bytes_written (h : Hdr) (hn : NamesNoNul h) : (encodeRaw h).length = Hdr.len h :=
   PnVerif.Props.C04.encode_length h hn
 
+/-- A decoder written from the format specification alone recovers from the written header exactly
+    what was defined — dimensions, attributes of every type and length (0 included), variables,
+    record count, begins — and stops exactly at the end of the header. -/
+theorem written_header_decodes (d : Schema) (rest : Bytes) (h : Encodable d) :
+    Spec.header (encodeRaw d ++ rest) = some (d, rest) :=
+  header_put d rest h
+
+/-- Whatever hints (nc_header_align_size, nc_var_align_size, nc_record_align_size) and ncmpi__enddef
+    arguments are given, the alignments NC_begins works with are positive multiples of 4. -/
+theorem alignments_resolved (envH envV envR hMin argV vMin argR numFix : Nat) (isRedef : Bool) :
+    AlignOk (resolveAlign envH envV envR hMin argV vMin argR numFix isRedef) :=
+  resolveAlign_ok envH envV envR hMin argV vMin argR numFix isRedef
+
+/-- `begins_wf`: every layout NC_begins accepts — on a new file and on any redefinition — is
+    well-formed: all begins are multiples of 4; the header plus h_minfree fits before the first
+    variable; fixed-size variables follow in definition order without overlap; the record section
+    starts after them plus v_minfree; record variables are consecutive inside a record; recsize is
+    the sum of the padded lengths, or the unpadded size for exactly one record variable; the first
+    fixed-size variable is aligned to h_align on a new file; begin_rec is aligned to r_align unless
+    pinned to the old begin_rec; and a redefinition moves nothing towards the start of the file.
+    The statement is for ALL formats, header sizes, variable lists, hints and ncmpi__enddef
+    arguments (through `resolveAlign`). -/
+theorem begins_wf (fmt : Fmt) (xsz : Nat) (vars : List VarL)
+    (envH envV envR hMin argV vMin argR numFix : Nat) (beginRec0 : Nat) (old : Option Old) (L : Layout)
+    (hlen : ∀ v ∈ vars, v.len % 4 = 0 ∧ 0 < v.len)
+    (hold : ∀ o, old = some o → OldOk vars o ∧ beginRec0 = o.beginRec)
+    (h : ncBegins fmt xsz vars (resolveAlign envH envV envR hMin argV vMin argR numFix old.isSome) beginRec0 old = .ok L) :
+    LayoutWF xsz vars (resolveAlign envH envV envR hMin argV vMin argR numFix old.isSome) old L :=
+  ncBegins_wf fmt xsz vars _ beginRec0 old L (resolveAlign_ok _ _ _ _ _ _ _ _ _) hlen hold h
+
+/-- new file: no assumption besides the variable lengths being what ncmpio_NC_var_shape64 produces
+    (positive multiples of 4) -/
+theorem begins_wf_fresh (fmt : Fmt) (xsz : Nat) (vars : List VarL)
+    (envH envV envR hMin argV vMin argR numFix : Nat) (L : Layout)
+    (hlen : ∀ v ∈ vars, v.len % 4 = 0 ∧ 0 < v.len)
+    (h : ncBegins fmt xsz vars (resolveAlign envH envV envR hMin argV vMin argR numFix false) 0 none = .ok L) :
+    LayoutWF xsz vars (resolveAlign envH envV envR hMin argV vMin argR numFix false) none L :=
+  begins_wf fmt xsz vars envH envV envR hMin argV vMin argR numFix 0 none L hlen (fun o ho => by cases ho) h
+
+/-- the same with the variable lengths computed by the model of ncmpio_NC_var_shape64 from an
+    arbitrary schema (any dimensions, any variable types and shapes the C accepts): no hypothesis on
+    lengths is left -/
+theorem begins_wf_schema (h : Hdr) (vars : List VarL) (hv : varsOf h = .ok vars)
+    (envH envV envR hMin argV vMin argR numFix : Nat) (L : Layout)
+    (hb : ncBegins h.fmt (Hdr.len h) vars (resolveAlign envH envV envR hMin argV vMin argR numFix false) 0 none = .ok L) :
+    LayoutWF (Hdr.len h) vars (resolveAlign envH envV envR hMin argV vMin argR numFix false) none L :=
+  begins_wf_fresh h.fmt (Hdr.len h) vars envH envV envR hMin argV vMin argR numFix L (varsOf_len h vars hv) hb
+
+/-- ALL histories: create a file, then any number of rounds (define more variables …, enddef with any
+    hints / ncmpi__enddef arguments, data mode, redef).  Every layout the successive NC_begins calls
+    accept is well-formed — the hypothesis `OldOk` of `begins_wf` is never an assumption about the
+    history: it is re-established by each round for the next (induction over the list of phases,
+    unbounded length). -/
+theorem history_wf (fmt : Fmt) (ps : List Phase) (steps : List Step)
+    (hlen : ∀ p ∈ ps, ∀ v ∈ p.extra, v.len % 4 = 0 ∧ 0 < v.len)
+    (h : runHistory fmt [] 0 none ps = .ok steps) :
+    ∀ s ∈ steps, LayoutWF s.xsz s.vars s.al s.old s.L :=
+  runHistory_wf fmt ps [] 0 none steps (fun v hv => by cases hv) hlen (fun _ o ho => by cases ho) h
+
+/-! non-vacuity: a new CDF-1 file with two fixed-size and two record variables, default alignment;
+    and its redefinition with one more fixed-size variable, v_minfree = 8, r_align = 128 -/
+def exVars : List VarL :=
+  [{ isRec := false, len := 12, packed := 12 }, { isRec := true, len := 8, packed := 6 },
+   { isRec := false, len := 4, packed := 2 }, { isRec := true, len := 4, packed := 4 }]
+
+example : ncBegins .cdf1 192 exVars (resolveAlign 0 0 0 0 0 0 0 4 false) 0 none =
+    .ok { xsz := 192, beginVar := 512, beginRec := 528, recsize := 12, fixedBegins := [512, 524], recBegins := [528, 536] } := by
+  rfl
+
+def exOld : Old := { beginVar := 512, beginRec := 528, vars := [(false, 512), (true, 528), (false, 524), (true, 536)] }
+def exVars2 : List VarL := exVars ++ [{ isRec := false, len := 24, packed := 24 }]
+
+example : OldOk exVars2 exOld := by
+  constructor
+  · decide
+  · decide
+  · exact ⟨2, by decide⟩
+  · decide
+
+example : ncBegins .cdf1 228 exVars2 (resolveAlign 0 0 0 0 64 8 128 3 true) 528 (some exOld) =
+    .ok { xsz := 228, beginVar := 512, beginRec := 640, recsize := 12, fixedBegins := [512, 524, 528], recBegins := [640, 648] } := by
+  rfl
+
+example : (runHistory .cdf1 [] 0 none
+    [{ xsz := 192, extra := exVars, envH := 0, envV := 0, envR := 0, hMin := 0, argV := 0, vMin := 0, argR := 0 },
+     { xsz := 228, extra := [{ isRec := false, len := 24, packed := 24 }], envH := 0, envV := 0, envR := 0,
+       hMin := 0, argV := 64, vMin := 8, argR := 128 }]).toOption.map (fun ss => ss.map (fun s => (s.L.fixedBegins, s.L.recBegins))) =
+    some [([512, 524], [528, 536]), ([512, 524, 528], [640, 648])] := by
+  rfl
+
 def obligations : List String := [
-  "header_size_is_bytes_written"
+  "header_size_is_bytes_written", "written_header_decodes", "alignments_resolved", "begins_wf", "begins_wf_fresh",
+  "begins_wf_schema", "history_wf"
 ]
 end PnVerif.Props.C03
